@@ -641,7 +641,7 @@ func runFrame(fr *frame) {
 		if ex != nil {
 			ex.instrs += int64(len(nonPhis))
 			if ex.instrs > ex.instrBudget && !ex.inInit {
-				panic(pathAbort{"budget", fmt.Sprintf("instruction budget %d exceeded in %s", ex.instrBudget, fr.fn)})
+				panic(pathAbort{"budget", fmt.Sprintf("instruction budget %d exceeded", ex.instrBudget)})
 			}
 		}
 		for _, instr := range nonPhis {
